@@ -45,16 +45,38 @@ const char* START = "rnbqkbnr/pppppppp/8/8/8/8/PPPPPPPP/RNBQKBNR w KQkq - 0 1";
 const int MAX_CAPTURES = 6;   // 32 - 6 = 26 men
 
 // ---------------------------------------------------------------- generator
-enum Theme { TH_UNIFORM = 0, TH_CASTLE, TH_PROMO, TH_EP, TH_HOME, TH_QUIET, TH_CAPTURES, TH_PAWNS, NTHEMES };
+enum Theme { TH_UNIFORM = 0, TH_CASTLE, TH_PROMO, TH_EP, TH_HOME, TH_QUIET, TH_CAPTURES, TH_PAWNS, TH_SCRIPT, NTHEMES };
 const char* themeName(int t) {
-    static const char* n[] = {"uniform", "develop+castle", "promotion race", "e.p.", "king/rook out and home", "quiet", "captures", "pawns"};
+    static const char* n[] = {"uniform", "develop+castle", "promotion race", "e.p.", "king/rook out and home", "quiet", "captures", "pawns", "scripted opening"};
     return n[t];
+}
+
+// Scripted openings (legal from the initial position; checked move by move when used): situations the
+// proof-kernel rules single out and random play practically never builds.  A random continuation follows.
+const std::vector<std::vector<std::string>>& scripts() {
+    static const std::vector<std::vector<std::string>> v = {
+        // white promotes to a bishop on a8 behind the unmoved pawn b7 (trapped promoted bishop)
+        {"b2b4", "a7a5", "b4a5", "a8a6", "g1f3", "a6h6", "a5a6", "g8f6", "a6a7", "f6g8", "a7a8b"},
+        // black promotes to a bishop on a1 behind the unmoved pawn b2
+        {"h2h4", "b7b5", "a2a4", "b5a4", "a1a3", "g8f6", "a3h3", "a4a3", "h4h5", "a3a2", "h5h6", "a2a1b"},
+        // the same on the h-file
+        {"g2g4", "h7h5", "g4h5", "h8h6", "b1c3", "h6a6", "h5h6", "b8c6", "h6h7", "c6b8", "h7h8b"},
+        {"a2a4", "g7g5", "h2h4", "g5h4", "h1h3", "b8c6", "h3a3", "h4h3", "a4a5", "h3h2", "a5a6", "h2h1b"},
+        // a white pawn captures five times: a2 x b3 x c4 x d5 x e6 x f7
+        {"g1f3", "b8c6", "f3g1", "c6a5", "g1f3", "a5b3", "a2b3", "g8f6", "f3g1", "f6d5", "g1f3", "d5b6", "f3g1", "b6c4",
+         "b3c4", "d7d5", "c4d5", "e7e6", "d5e6", "a7a6", "e6f7", "e8e7"},
+        // a black pawn captures five times: h7 x g6 x f5 x e4 x d3 x c2
+        {"g1f3", "g8f6", "f3h4", "f6g8", "h4g6", "h7g6", "b1c3", "g8f6", "c3d5", "f6g8", "d5e3", "g8f6", "e3f5", "g6f5",
+         "e2e4", "f5e4", "d2d3", "e4d3", "a2a3", "d3c2"},
+    };
+    return v;
 }
 
 struct GameInfo {
     gen::Game g;
     int captures = 0, promotions = 0, castles = 0, epCaptures = 0, theme = 0;
     std::vector<char> isCastle; // per move
+    bool scriptBroken = false; std::string brokenAt;
 };
 
 bool givesPseudoEp(const ref::Pos& p, const ref::Move& m) { return ref::make(p, m).ep >= 0; }
@@ -102,14 +124,37 @@ int moveWeight(const ref::Pos& p, const ref::Move& m, int theme, bool capturesAl
     return wt;
 }
 
-GameInfo genGame(Choices& c, int maxPlies) {
+GameInfo genGame(Choices& c, int maxPlies, bool longBias = false) {
     GameInfo gi;
     gen::Game& g = gi.g;
     g.startFen = START;
     g.pos.push_back(ref::startPos());
     int theme = gi.theme = g.profile = c.pick(NTHEMES);
     int plies = c.range(1, maxPlies);
-    for (int i = 0; i < plies; i++) {
+    if (longBias) plies = std::max(plies, c.range(1, maxPlies));
+    auto play = [&](const ref::Move& m) {
+        const ref::Pos p = g.pos.back();
+        if (ref::isCapture(p, m)) gi.captures++;
+        if (ref::isEp(p, m)) gi.epCaptures++;
+        if (m.promo) gi.promotions++;
+        bool cs = ref::isCastle(p, m);
+        if (cs) gi.castles++;
+        gi.isCastle.push_back(cs);
+        g.moves.push_back(m);
+        g.pos.push_back(ref::make(p, m));
+    };
+    if (theme == TH_SCRIPT) {
+        const std::vector<std::string>& sc = scripts()[c.pick((int)scripts().size())];
+        size_t len = sc.size();
+        if ((int)len > maxPlies) len = (size_t)maxPlies;
+        for (size_t i = 0; i < len; i++) {
+            ref::Move m = ref::Move::fromUci(sc[i]);
+            if (!ref::isLegal(g.pos.back(), m)) { gi.scriptBroken = true; gi.brokenAt = sc[0] + "... move " + std::to_string(i) + " " + sc[i]; break; }
+            play(m);
+        }
+        theme = c.flip() ? TH_QUIET : TH_UNIFORM;
+    }
+    for (int i = (int)g.moves.size(); i < plies; i++) {
         if (i > 0 && c.empty()) break;
         const ref::Pos& p = g.pos.back();
         std::vector<ref::Move> lm = ref::legalMoves(p);
@@ -118,7 +163,7 @@ GameInfo genGame(Choices& c, int maxPlies) {
         bool capturesAllowed = gi.captures < MAX_CAPTURES;
         std::vector<int> wts(lm.size());
         long tot = 0;
-        bool last = i + 1 == plies;
+        bool last = i + 1 == plies || c.left() <= 3;   // the choice stream ends the game too
         bool wantEp = last && c.chance(1, 3);
         for (size_t k = 0; k < lm.size(); k++) {
             wts[k] = moveWeight(p, lm[k], theme, capturesAllowed);
@@ -129,15 +174,8 @@ GameInfo genGame(Choices& c, int maxPlies) {
         long r = c.pick((int)tot);
         size_t k = 0;
         while (r >= wts[k]) { r -= wts[k]; k++; }
-        const ref::Move& m = lm[k];
-        if (ref::isCapture(p, m)) gi.captures++;
-        if (ref::isEp(p, m)) gi.epCaptures++;
-        if (m.promo) gi.promotions++;
-        bool cs = ref::isCastle(p, m);
-        if (cs) gi.castles++;
-        gi.isCastle.push_back(cs);
-        g.moves.push_back(m);
-        g.pos.push_back(ref::make(p, m));
+        play(lm[k]);
+        if (wantEp && g.pos.back().ep >= 0) break;   // keep the double push as the final move
     }
     return gi;
 }
@@ -293,6 +331,17 @@ struct Checker {
         if (gi.castles) st.clsSample(pre + "game with castling", mk);
         if (gi.epCaptures) st.clsSample(pre + "game with e.p. capture", mk);
         if (f.men() == 26) st.clsSample(pre + "26 men", mk);
+        if (gi.theme == TH_SCRIPT) st.cls(pre + "scripted opening");
+        if (gi.scriptBroken) st.cls("harness: scripted opening is not legal: " + gi.brokenAt);
+        {   // bishop on its last rank whose diagonal exits are the opponent's unmoved pawns (trapped; promoted if it is not on c/f)
+            bool trapped = false;
+            for (int x = 0; x < 8; x++) {
+                auto pawnAt = [&](int xx, int y, char pc) { return xx < 0 || xx > 7 || f.b[ref::SQ(xx, y)] == pc; };
+                if (f.b[ref::SQ(x, 7)] == 'B' && pawnAt(x - 1, 6, 'p') && pawnAt(x + 1, 6, 'p')) trapped = true;
+                if (f.b[ref::SQ(x, 0)] == 'b' && pawnAt(x - 1, 1, 'P') && pawnAt(x + 1, 1, 'P')) trapped = true;
+            }
+            if (trapped) st.clsSample(pre + "promoted bishop trapped behind unmoved pawns", mk);
+        }
         if (ref::inCheck(f)) st.clsSample(pre + "final position in check", mk);
         if (gi.promotions || epRight || gi.captures >= 3 || lostHome) st.nt(pre + goalFen); else st.cls(pre + "plain");
     }
@@ -349,7 +398,8 @@ struct Checker {
         const Verdict& l = vs.back();
         std::string k = l.kind.empty() ? "no verdict token" : l.kind;
         if (k == "unknown-fail") st.inconclusive++;
-        st.cls(pre + "verdict after " + std::to_string(vs.size()) + " iteration(s): " + k);
+        st.clsSample(pre + "verdict after " + std::to_string(vs.size()) + " iteration(s): " + k, [&]() {
+            Value v = Value::object(); v["output_line"] = l.line.substr(0, 500); return v; });
     }
 
     // (ii)
@@ -486,6 +536,16 @@ int main(int argc, char** argv) {
     Checker ck(st);
     const int iters = (int)a.num("iters", 3);
     const long shortNodes = a.num("short-nodes", 200000);
+    if (a.num("selftest", 0)) {   // every scripted opening must be a legal game
+        int bad = 0;
+        for (auto& sc : scripts()) {
+            gen::Game g;
+            bool ok = gen::gameFrom(START, sc, g);
+            printf("script %s... %zu plies: %s  -> %s\n", sc[0].c_str(), sc.size(), ok ? "legal" : "ILLEGAL", ok ? ref::toFEN(g.pos.back()).c_str() : "");
+            bad += !ok;
+        }
+        return bad ? 2 : 0;
+    }
     if (!a.replay.empty()) {
         ck.strictD8 = true;
         return vh::runReplay([&](const std::string& sub, const Value& k) {
@@ -503,10 +563,12 @@ int main(int argc, char** argv) {
         GameInfo gi = genGame(c, maxPlies);
         ck.runGame(gi, "games", true, 1);
     });
-    vh::runProp("short", nShort, 0.5, [&](Choices& c) {
-        GameInfo gi = genGame(c, (int)a.num("short-plies", 12));
+    vh::ctx().shrinkBudget = 600;   // the oracles below are expensive; bound the shrinking effort
+    vh::runProp("short", nShort, 1.0, [&](Choices& c) {
+        GameInfo gi = genGame(c, (int)a.num("short-plies", 12), true);
         ck.runShort(gi, shortNodes, iters);
     });
+    vh::ctx().shrinkBudget = 150;
     vh::runProp("iter", nIter, 3.0, [&](Choices& c) {
         GameInfo gi = genGame(c, maxPlies);
         ck.runGame(gi, "iter", false, iters);
